@@ -4,6 +4,7 @@ import (
 	"fmt"
 	"math"
 	"strconv"
+	"strings"
 	"time"
 
 	"github.com/tormoder/fit"
@@ -12,6 +13,14 @@ import (
 )
 
 func init() { registrars = append(registrars, registerC17) }
+
+// c17Kept: a printed form held across later String() calls, with a private copy of its bytes.
+type c17Kept struct {
+	s, copy string
+	of      int32
+}
+
+var c17Held [2]c17Kept
 
 func registerC17() {
 	lib.Register(&lib.Check{
@@ -134,8 +143,17 @@ func c17Coords(c *lib.Ctx, idx uint64) {
 					report("%s %d: String() = %q, Degrees() = %v: not within 2e-5", kind, s, str, d)
 				}
 			}
-			checkPrinted("latitude", la.String(), latInv, deg)
-			checkPrinted("longitude", lo.String(), lngInv, ldeg)
+			// the strings are kept until the next pair has been printed and then read again: a
+			// printed form must not change after it was returned
+			laStr := la.String()
+			loStr := lo.String()
+			checkPrinted("latitude", laStr, latInv, deg)
+			checkPrinted("longitude", loStr, lngInv, ldeg)
+			if c17Held[0].s != c17Held[0].copy || c17Held[1].s != c17Held[1].copy {
+				report("the printed form of semicircles %d changed after later String() calls: now %q / %q, was %q / %q", c17Held[0].of, c17Held[0].s, c17Held[1].s, c17Held[0].copy, c17Held[1].copy)
+			}
+			c17Held[0] = c17Kept{laStr, strings.Clone(laStr), s}
+			c17Held[1] = c17Kept{loStr, strings.Clone(loStr), s}
 		}
 	}
 	// Out-of-range degrees are rejected by the degree constructors.
